@@ -1,4 +1,5 @@
 import TSSVerif.Model.Wire
+import TSSVerif.Model.WireDisc
 /-!
 # C13 — every 16-bit identifier, round and digest survives the wire encodings
 
@@ -9,7 +10,7 @@ are therefore re-checked against what the code says now. All quantifiers are unb
 -/
 set_option linter.unusedSimpArgs false
 namespace TSSVerif.Props.C13
-open TSSVerif.Model TSSVerif.Gen.Wire
+open TSSVerif.Model TSSVerif.Gen.Wire TSSVerif.Gen.WireDisc
 
 /-! ## helper facts about the regenerated expressions -/
 
